@@ -118,6 +118,11 @@ func (c *conn) closeNotify() <-chan bool {
 				err = io.EOF
 			}
 			pw.CloseWithError(err)
+			if ne, ok := err.(net.Error); ok && ne.Timeout() {
+				// the read deadline of the request stage ran out while the
+				// response was under way: no sign that the client went away
+				return
+			}
 			c.noteClientGone()
 		}()
 	}
